@@ -123,6 +123,28 @@ def check(rep, tier):
                 want = [SF.stats[i][what][v] for i in range(Nrep) for v in range(N) if (gs is None or lab[v] in gs) and (ss is None or i in ss)]
                 if len(want) != len(got) or not all(same(a, b) for a, b in zip(want, got)):
                     rep.violation("accessor", "Snowfall accessor %s(group=%r, seed=%r) returns %d values, the matching rows are %d" % (what, g, sd, len(got), len(want)), dict(config=cfg, group=g, seed=sd)); break
+            if ri % 6 == 0:
+                # history: the table was exported, the template's cooling program / vial seed is changed, the study is run again on the same
+                # object: the exported table is the table of the NEW statistics
+                try:
+                    with impl.quiet():
+                        SF.Sf_template.seed_v = cfg["seed_v"] + 11
+                        SF.Sf_template.opcond.cooling["rate"] = cfg["prog"]["rate"] * 1.5
+                        _run_study(SF, how)
+                        fdf2 = SF.to_frame()
+                        acc2 = np.asarray(SF.nucleationTimes(), dtype=float)
+                    rep.count("snowfall-rerun")
+                    bad2 = None
+                    for _, row in fdf2.iterrows():
+                        i, v, var = int(row["seed"]), int(row["vial"]), row["variable"]
+                        if var not in VARS or not same(row["value"], SF.stats[i][var][v]):
+                            bad2 = (i, v, var, row["value"], SF.stats[i][var][v]); break
+                    want2 = [SF.stats[i]["t_nucleation"][v] for i in range(Nrep) for v in range(N)]
+                    if bad2 or len(fdf2) != Nrep * N * 3 or len(want2) != len(acc2) or not all(same(a, b) for a, b in zip(want2, acc2)):
+                        rep.violation("snowfall-table-stale-after-rerun", "Snowfall: run, export, template changed, run again: the exported table / accessors do not hold the new statistics (%s) (how=%r, Nrep=%d)"
+                                      % ("row (seed %d, vial %d, %s) = %r, repetition holds %r" % bad2 if bad2 else "accessor differs", how, Nrep), dict(config=cfg, Nrep=Nrep, how=how, history=["run", "to_frame", "template changed", "run", "to_frame"]))
+                except Exception as e:
+                    rep.violation("snowfall-table-crash %s" % type(e).__name__, "second Snowfall run / export raises %r" % e, dict(config=cfg, Nrep=Nrep, how=how))
         def nl(l):
             return coq_list(str(int(x)) for x in l)
         cases.append("(%d, %s, %s, %d, %d, %s, %d, %s)" % (N, nl(sp), nl(stored), ncols if stored else 0, ns, nl(tp), Nrep, nl(fp)))
